@@ -88,7 +88,8 @@ def cases(tier, seed):
     for a in chain_names:
         for b in chain_names:
             out.append(dict(fam="chain", a=a, b=b, names=chain_names, full=(tier == "thorough")))
-    for d in ("G1", "G2", "G5", "G7", "G2b") if tier == "quick" else ("G1", "G2", "G3", "G4", "G5", "G6", "G7", "G2b"):
+    # G1int / G2int: the probe points are given as integers (an integer-typed array / a list of int tuples)
+    for d in ("G1", "G2", "G5", "G7", "G2b", "G1int", "G2int") if tier == "quick" else ("G1", "G2", "G3", "G4", "G5", "G6", "G7", "G2b", "G1int", "G2int"):
         out.append(dict(fam="device", dev=d))
     return out
 
@@ -596,6 +597,10 @@ def run_device(case):
 
         dev = tdgl.Device("two", layer=zoo.make_layer(), film=g["film"], holes=[g["holes"][0], tdgl.Polygon("h2", points=box(0.8, 0.6, points=12, center=(-1.8, -0.9)))],
                           terminals=g["terminals"], probe_points=g["probe_points"])
+    elif name in ("G1int", "G2int"):
+        g = zoo.geometry(name[:2])
+        pp = np.array([[-2, 1], [2, -1], [1, 1]]) if name == "G1int" else [(-2, -1), (2, 1)]
+        dev = tdgl.Device("ints", layer=zoo.make_layer(), film=g["film"], holes=g["holes"], terminals=g["terminals"], probe_points=pp)
     else:
         dev = zoo.device(name, mesh=False, memo=False)
     probes = lattice()
@@ -642,14 +647,34 @@ def run_device(case):
                 and ((a[3] is None and b[3] is None) or np.array_equal(a[3], b[3])) and a[4] == b[4])
 
     snap = snapshot(dev)
+    th = np.deg2rad(33.0)
+    Rm = np.array([[np.cos(th), -np.sin(th)], [np.sin(th), np.cos(th)]])
+    maps = {
+        "copy": lambda q: np.asarray(q, float),
+        "scale": lambda q: np.array([0.2, 0.1]) + (np.asarray(q, float) - np.array([0.2, 0.1])) * np.array([-1.5, 2.0]),
+        "scale_small": lambda q: np.asarray(q, float) * np.array([0.3, 0.3]),
+        "rotate": lambda q: np.array([0.5, -0.5]) + (np.asarray(q, float) - np.array([0.5, -0.5])) @ Rm.T,
+        "translate": lambda q: np.asarray(q, float) + np.array([1.2, -0.7]),
+    }
     for label, f in (
         ("copy", lambda: dev.copy()),
         ("scale", lambda: dev.scale(xfact=-1.5, yfact=2.0, origin=(0.2, 0.1))),
+        ("scale_small", lambda: dev.scale(xfact=0.3, yfact=0.3)),
         ("rotate", lambda: dev.rotate(33.0, origin=(0.5, -0.5))),
         ("translate", lambda: dev.translate(dx=1.2, dy=-0.7, dz=0.4)),
     ):
         new = f()
         res.count("programs")
+        # points map consistently with the shapes: the film outline and the probe points of the new device are the images of the old ones
+        want_film = maps[label](snap[0])
+        if new.film.points.shape != want_film.shape or np.abs(np.sort(new.film.points, axis=0) - np.sort(want_film, axis=0)).max() > 1e-9:
+            res.violate("transformed-device-film-is-not-the-image-of-the-film", op=label, detail={"dev": name})
+        if snap[3] is not None:
+            want_pp = maps[label](snap[3])
+            got_pp = None if new.probe_points is None else np.asarray(new.probe_points, float)
+            if got_pp is None or got_pp.shape != want_pp.shape or np.abs(got_pp - want_pp).max() > 1e-9:
+                res.violate("transformed-device-probe-points-are-not-the-images-of-the-probe-points", op=label, integer_probe_points=bool(name.endswith("int")),
+                            detail={"dev": name, "max_abs": None if got_pp is None or got_pp.shape != want_pp.shape else float(np.abs(got_pp - want_pp).max())})
         if not same_snapshot(snap, snapshot(dev)):
             res.violate("device-operation-mutates-source", op=label, detail={"dev": name})
             break
@@ -676,7 +701,7 @@ def run_device(case):
         # modifying the new device must not reach the source
         new.film.translate(dx=5.0, inplace=True)
         if new.probe_points is not None:
-            new.probe_points += 1.0
+            new.probe_points += 1
         new.layer.z0 += 1.0
         if not same_snapshot(snap, snapshot(dev)):
             res.violate("device-copy-shares-state-with-source", op=label, detail={"dev": name})
